@@ -311,7 +311,7 @@ code's loops. -/
 /-- **relocation** (guard: `Relocatable.flat` — no symlink recorded below another symlink — and `Relocatable.depth`;
 the statement without `flat` is false of the code, `convert_relocates_counterexample`; with longer resolution
 chains than the archive has symlinks the passes stop early, `convert_passes_counterexample`; on a cycle among
-symlinks recorded below symlinks the code does not terminate, `convert_cycle_counterexample`): for an archive whose
+symlinks recorded below symlinks the code raises, `convert_cycle_rejected`): for an archive whose
 symlinked directories form no cycle, `convert_archive` puts every entry at
 the resolved location of its recorded path — chains (`current → stable → v2`) and nests included —, loses and
 duplicates nothing (the result is a permutation of the relocated entries plus newly created directories, with
@@ -471,9 +471,20 @@ theorem convert_passes_counterexample :
 /-- a symlink pointing below itself with a symlink recorded below it -/
 def cycleSet : List Obj := [.sym "/a".toList "/a/x".toList dirAttrs, .sym "/a/x".toList "foo".toList dirAttrs]
 
-/-- the `while True` loop over the symlinks never ends on it (the model runs out of fuel; the code hangs: open
-finding C25-symlink-cycle-hang) -/
-theorem convert_cycle_counterexample : convertArchive cycleSet = none := by decide
+/-- the loop over the symlinks (formerly `while True`: the code never returned, fixed finding C25-symlink-cycle-hang)
+uses up its passes on it and `convert_archive` raises the symlink-loop `AssertionError` -/
+theorem convert_cycle_rejected : convertArchive cycleSet = none := by decide
+
+/-- **termination**: every loop of `convert_archive` is bounded (the model recurses on the bounds of the code, there is
+no modelling fuel left), so it returns a result or raises; it raises (`none`) exactly when the loop relocating symlinks
+recorded below symlinks uses up its `n² + n + 2` passes, and when that loop ends normally no symlink of its result
+lies below another one -/
+theorem convert_terminates (raw : List Obj) :
+    (convertArchive raw = none ↔
+      symLoop (((setOf raw).filter Obj.isSym).length * ((setOf raw).filter Obj.isSym).length
+        + ((setOf raw).filter Obj.isSym).length + 2) (setOf ((setOf raw).filter Obj.isSym)) = none) ∧
+    (∀ fuel syms F, symLoop fuel syms = some F → ∀ x ∈ F, childNodes F x.loc = []) :=
+  ⟨convertArchive_none_iff raw, symLoop_settled⟩
 
 example : (roundTrip 100 exampleSet).map (List.map inodeOf) = some [none, none, none, some 101, some 101] := by decide
 
